@@ -1,7 +1,7 @@
 (** C06 for PreOrderIter: the transcription equals
     [filter f (preorder (prune stop ml t))] for every f, stop, maxlevel, tree. *)
 Require Import AT.Model.Base AT.Model.Rose AT.Model.Iter AT.Spec.IterSpec AT.Proofs.ListLemmas.
-Open Scope Z_scope.
+Local Open Scope Z_scope.
 
 Section P.
 Variables (f stop : id -> bool).
